@@ -1,5 +1,6 @@
 pub mod common;
 pub mod c02;
+pub mod c03;
 pub mod c04;
 pub mod c10;
 pub mod c11;
@@ -9,12 +10,13 @@ pub mod c13;
 use crate::engine::Property;
 
 pub fn all_ids() -> Vec<&'static str> {
-    vec!["C02", "C04", "C10", "C11", "C12", "C13"]
+    vec!["C02", "C03", "C04", "C10", "C11", "C12", "C13"]
 }
 
 pub fn get(id: &str) -> Option<Property> {
     match id {
         "C02" => Some(c02::property()),
+        "C03" => Some(c03::property()),
         "C04" => Some(c04::property()),
         "C10" => Some(c10::property()),
         "C11" => Some(c11::property()),
